@@ -806,6 +806,9 @@ impl Verifier {
             self.worker = Worker::spawn();
             return Err(Deviation::new(format!("{kind}:open-aborted"), format!("{what}: the process opening the image died")));
         };
+        if let Some(e) = reply.strip_prefix("err c11-") {
+            return Err(Deviation::new(format!("{kind}:recovered-data-not-superseded"), format!("{what}: {e}")));
+        }
         if let Some(e) = reply.strip_prefix("err ") {
             return Err(Deviation::new(format!("{kind}:open-failed"), format!("{what}: open failed: {e}")));
         }
@@ -822,10 +825,8 @@ impl Verifier {
         if let (Some(d2), Some(name)) = (d2, names.first()) {
             // the repaired journal must keep what is appended to it
             let got2 = parse_dump(&d2).ok_or_else(|| Deviation::new("inconclusive:protocol", "bad dump"))?;
-            let mut exp2 = got.clone();
-            for i in 0..3 {
-                exp2.entry(name.clone()).or_default().insert(format!("zz-appended-{i}").into_bytes(), format!("appended-{i}").into_bytes());
-            }
+            let _ = name;
+            let exp2 = crate::engine_jbytes::with_appended(got.clone(), &names);
             stats.inc("images.append_after_recovery_checked");
             if got2 != exp2 {
                 return Err(Deviation::new(
